@@ -122,7 +122,9 @@ def run(tier, seed):
                     trailing = bad + more
                 comp = rng.choice([b'INFO', b'FANS', b'IICS', b'ER\x80RL', b'AB CD  ', b'', b'ABCDEFGHIJKL', b'X\0Y']).ljust(12, rng.choice([b'\0', b' ']))[:12]
                 hdr = (rng.randrange(256), rng.randrange(256), rng.randrange(256), rng.randrange(256), comp,
-                       bytes(rng.randrange(256) for _ in range(4)), size, rng.choice([0, 1, 2 ** 32 - 1]), rng.randrange(2 ** 32))
+                       bytes(rng.randrange(256) for _ in range(4)), size, rng.choice([0, 1, 2, 2 ** 32 - 1]),
+                       # (the "next free" offset: anywhere, on an entry boundary inside the buffer, or in the middle of an entry -- it decides nothing)
+                       rng.choice([rng.randrange(2 ** 32), 32, size, 32 + rng.randrange(1, max(2, total - 32)), 32 + sum(len(enc_entry(e)) for e in es[:len(es) // 2])]))
                 reqs.append('tracespec %d %d %d %d %d %s %s %d %d %d %s %s' % (
                     sid, hdr[0], hdr[1], hdr[2], hdr[3], tb(hdr[4]), tb(hdr[5]), hdr[6], hdr[7], hdr[8],
                     tlist(es, lambda e: '%d %d %d %d %d %s %s' % (e[0], e[1], e[2], e[3], e[4], tb(e[5]), tb(e[6]))), tb(trailing)))
